@@ -123,6 +123,7 @@ var queries = map[string]string{
 	"maybe": `{ maybe { id val } flag }`,
 	"all":   `{ flag items { id } maybe { val } }`,
 	"boom":  `{ flag boom }`,
+	"slow":  `{ slow }`,
 	"bad":   `{ nosuchfield }`,
 }
 
@@ -234,6 +235,15 @@ func (w *world) buildSchema() *graphql.Schema {
 		}
 		return nil
 	})
+	// a resolver that notices the cancellation of its run (Stop / unsubscribe while in flight)
+	q.FieldFunc("slow", func(ctx context.Context) (int64, error) {
+		st := w.dep(ctx)
+		rt.Yield()
+		if err := ctx.Err(); err != nil {
+			return 0, err
+		}
+		return st.Flag, nil
+	})
 	q.FieldFunc("boom", func(ctx context.Context) (string, error) {
 		st := w.dep(ctx)
 		mode := st.Boom
@@ -268,6 +278,11 @@ func (w *world) buildSchema() *graphql.Schema {
 		return args.V
 	})
 	m.FieldFunc("fail", func(ctx context.Context) (int64, error) { return 0, errors.New("mutation failed: " + secret) })
+	// a mutation that is still running when later frames arrive, and then panics
+	m.FieldFunc("slowPanic", func(ctx context.Context) (int64, error) {
+		rt.Yield()
+		panic("mutation panicked: " + secret)
+	})
 	return s.MustBuild()
 }
 
